@@ -1,6 +1,7 @@
 import AndaVerif.Model.BTree
 import AndaVerif.Model.BTreeFlush
 import AndaVerif.Model.Prefix
+import AndaVerif.Model.BTreeConc
 import AndaVerif.Drv.Util
 /-
 Line-protocol driver of the C10 model (`drv_c10`). One request line in, one response line out.
@@ -19,6 +20,13 @@ L2 (durable side; the writes are the ones the harness recorded from the real flu
   reload           the index is dropped and loaded from the store (fresh index if no metadata)
   legacy | stale B K IDS    store surgery (see `Model/BTreeFlush`)
   dump             the current contents
+Threads (L3; the schedule is the one the explorer drove the real threads through):
+  sched U INIT T PROG T PROG … S STEPS
+    INIT  = `k=ids;…` or `-`;  PROG = ops joined by `,`: `i:d:k:spill` | `r:d:k` | `c:skip`, or `-`
+    STEPS = `tid>tag` joined by `,`; tag = where the thread parked after the action:
+            i1 i2 i3 i4 r1 r2 r3 c1 c2 c3, `n` (the `.0` point of its next operation), `e` (finished)
+    Response: `ok res R0|R1|… final DUMP q:b wf:b` (per-thread results `ok:b`, `err:exists`, `rm:b`, `c`),
+              or `err:disabled:N` / `err:tag:N:TAG` when the model cannot follow step N.
 String-keyed index (prefix queries; keys are hex of the UTF-8 bytes, `-` = empty string):
   sins D HEX | srem D HEX | pq N|- all|odd HEX
 WRITE = `P b g PAYLOAD` | `M version maxb ins del qc MANIFEST` | `D b g`;
@@ -171,6 +179,89 @@ def hexDigit (n : Nat) : Char := if n < 10 then Char.ofNat (n + '0'.toNat) else 
 def showHex (bs : List Nat) : String :=
   if bs.isEmpty then "-" else String.ofList (bs.flatMap (fun b => [hexDigit (b / 16), hexDigit (b % 16)]))
 
+-- ---------------------------------------------------------------------------------------------
+-- L3: replay of an explored schedule
+-- ---------------------------------------------------------------------------------------------
+open AndaVerif.BTreeConc in
+def parseConcOp (s : String) : Option BTreeConc.Op :=
+  match s.splitOn ":" with
+  | ["i", d, k, sp] => do pure (.insert (← d.toNat?) (← k.toInt?) (sp = "1"))
+  | ["r", d, k] => do pure (.remove (← d.toNat?) (← k.toInt?))
+  | ["c", sk] => some (.compact (sk = "1") (fun _ => 0))
+  | _ => none
+
+def parseProg (s : String) : Option (List BTreeConc.Op) :=
+  if s = "-" then some [] else (s.splitOn ",").mapM parseConcOp
+
+/-- `T p T p … S steps` -/
+def parseThreads : List String → Option (List (List BTreeConc.Op) × String)
+  | ["S", steps] => some ([], steps)
+  | "T" :: p :: r => do
+    let pr ← parseProg p
+    let (ps, st) ← parseThreads r
+    pure (pr :: ps, st)
+  | _ => none
+
+def parseSteps (s : String) : Option (List (Nat × String)) :=
+  if s = "-" then some []
+  else (s.splitOn ",").mapM (fun e =>
+    match e.splitOn ">" with
+    | [t, tag] => do pure ((← t.toNat?), tag)
+    | _ => none)
+
+open AndaVerif.BTreeConc in
+def pcTag (th : BTreeConc.Thread) : String :=
+  match th.pc with
+  | .idle => if th.prog.isEmpty then "e" else "n"
+  | .ins1 .. => "i1" | .ins2 .. => "i2" | .ins3 .. => "i3" | .ins4 .. => "i4"
+  | .rem1 .. => "r1" | .rem2 .. => "r2" | .rem3 .. => "r3"
+  | .cmp1 => "c1" | .cmp2 => "c2" | .cmp3 => "c3"
+
+def showRes : BTreeConc.Res → String
+  | .okB b => if b then "ok:1" else "ok:0"
+  | .errExists => "err:exists"
+  | .removed b => if b then "rm:1" else "rm:0"
+  | .compacted => "c"
+
+open AndaVerif.BTreeConc in
+def replaySched (c : BTreeConc.Cfg) : Nat → List (Nat × String) → Except String BTreeConc.Cfg
+  | _, [] => .ok c
+  | n, (t, tag) :: r =>
+    match BTreeConc.step t c with
+    | none => .error s!"err:disabled:{n}"
+    | some c' =>
+      match c'.threads[t]? with
+      | none => .error s!"err:disabled:{n}"
+      | some th => if pcTag th = tag then replaySched c' (n + 1) r else .error s!"err:tag:{n}:{pcTag th}"
+
+open AndaVerif.BTreeConc in
+def concDump (sh : BTreeConc.Shared) : String :=
+  let keys := sortDedup (sh.post.map (·.1))
+  let es := keys.filterMap (fun k => (pget sh.post k).map (fun p => s!"{k}={showNats (sortNats p.ids)}"))
+  if es.isEmpty then "-" else ";".intercalate es
+
+open AndaVerif.BTreeConc in
+def concWF (sh : BTreeConc.Shared) : Bool :=
+  sh.post.all (fun e => !e.2.ids.isEmpty && sh.btree.contains e.1 && sh.listed.contains (e.2.bucket, e.1))
+  && sh.btree.all (fun k => (pget sh.post k).isSome)
+
+open AndaVerif.BTreeConc AndaVerif.BTreeFlush in
+def stepSched (u : String) (ini : String) (rest : List String) : String :=
+  match parsePayload ini, parseThreads rest with
+  | some init, some (progs, steps) =>
+    (match parseSteps steps with
+     | none => "err:parse"
+     | some st =>
+       let sh : BTreeConc.Shared :=
+         { unique := u = "1", post := init.map (fun e => (e.1, ⟨0, e.2⟩)), btree := init.map (·.1),
+           listed := init.map (fun e => (0, e.1)), maxBucket := 0 }
+       match replaySched (initCfg sh progs) 0 st with
+       | .error e => e
+       | .ok c =>
+         let res := "|".intercalate (c.threads.map (fun th => if th.results.isEmpty then "-" else ",".intercalate (th.results.map showRes)))
+         s!"ok res {res} final {concDump c.sh} q:{bit (allIdle c)} wf:{bit (concWF c.sh)}")
+  | _, _ => "err:parse"
+
 structure DState where
   bt : State
   dur : BTreeFlush.Durable
@@ -219,6 +310,7 @@ def stepLine (s : DState) (line : String) : DState × String :=
      | some b, some k, some ids => ({ s with dur := BTreeFlush.injectStale s.dur b k ids }, "ok")
      | _, _, _ => (s, "err:parse"))
   | ["dump"] => (s, showMap s.bt.map)
+  | "sched" :: u :: ini :: rest => (s, stepSched u ini rest)
   | ["sins", d, k] =>
     (match d.toNat?, parseHex k with
      | some d, some k =>
